@@ -4,10 +4,11 @@
                                                              | cd,<nat> | cm,<nat> | ct,<nat> | pr | ze
                 metrics jwin <from> <to> <start:end:ip.ip...;...>     hand-built journal, window query
                 metrics jwrite <interval> <a<t>.<ip>,f<t>,...>          writer ops at explicit clock values
+                metrics jipc <interval> <p<t>.<ip>.<type>.<a|r|n>,z<t>,f<t>,...>   broker history with a journal attached
    For [conc]/[race] the model answer is computed with the sequential [incsN]; by C19_inc_conc (repaired
    machine) every interleaving of the Incs publishes exactly this value at every quiescent point. *)
 From Coq Require Import List NArith ZArith Bool Arith String.
-From Snow Require Import Lib.Wire Model.Round8 Model.Metrics Model.Journal.
+From Snow Require Import Lib.Wire Model.Round8 Model.Metrics Model.Journal Model.BrokerJournal.
 Import ListNotations.
 Open Scope N_scope.
 
@@ -183,11 +184,76 @@ Definition run_journal (args : list bytes) : option bytes :=
   | _ => None
   end.
 
+(* ---------- broker + journal (addresses are the decimal tokens; mask = identity on them) ---------- *)
+Definition bmask (a : bytes) : bytes := a.
+
+Definition bop_parse (t : bytes) : option bop :=
+  match t with
+  | 112 :: r =>                                            (* p<t>.<ip>.<type>.<o> *)
+      match split_on DOT r with
+      | [a; ip; ty; o] =>
+          match zparse a, dec_parse ip, dec_parse ty with
+          | Some a, Some _, Some ty =>
+              if beq o (bs "a") then Some (At a (ProxyPoll (Some (ip, [])) ty 0 true Idle))
+              else if beq o (bs "r") then Some (At a (ProxyPoll (Some (ip, [])) ty 0 true Rejected))
+              else if beq o (bs "n") then Some (At a (ProxyPoll None ty 0 true Idle))
+              else None
+          | _, _, _ => None
+          end
+      | _ => None
+      end
+  | 122 :: r => option_map (fun a => At a Zero) (zparse r)           (* z<t> *)
+  | 102 :: r => option_map FlushAt (zparse r)                        (* f<t> *)
+  | _ => None
+  end.
+
+Definition bchunk_print (c : chunk bytes) : bytes :=
+  zprint (c_start c) ++ [COLON] ++ zprint (c_end c) ++ [COLON] ++ dec_print (N.of_nat (List.length (c_sk c))).
+
+Fixpoint enum_from {A} (i : N) (l : list A) : list (N * A) :=
+  match l with [] => [] | x :: l' => (i, x) :: enum_from (i + 1) l' end.
+Fixpoint tails {A} (l : list A) : list (list A) :=
+  match l with [] => [] | x :: l' => l :: tails l' end.
+
+(* every window [start of chunk i, end of chunk j], i <= j *)
+Definition win_items (j : list (chunk bytes)) : list bytes :=
+  flat_map (fun t =>
+      match t with
+      | (i, ci) :: _ =>
+          map (fun jc => let r := count bytes beq (c_start ci) (c_end (snd jc)) j in
+                         dec_print i ++ bs "-" ++ dec_print (fst jc) ++ [COLON] ++ dec_print (fst r) ++ [COLON] ++ dec_print (snd r)) t
+      | [] => []
+      end)
+    (tails (enum_from 0 j)).
+
+Definition run_jipc (k : Z) (ops : list bop) : bytes :=
+  let s := brun bytes bmask beq ops (binit bytes false 0%Z k) in
+  let j := w_out (b_w s) in
+  let r := print (b_m s) in
+  bs "chunks=" ++ (match j with [] => bs "-" | _ => join [SEMI] (map bchunk_print j) end) ++
+  bs " wins=" ++ list_print (win_items j) ++
+  bs " uniq=" ++ DOTS (map (fun t => dec_print (r_type r t)) [0; 1; 2; 3] ++ [dec_print (r_total r)]).
+
+Definition run_broker_journal (args : list bytes) : option bytes :=
+  match args with
+  | [op; a; b] =>
+      if beq op (bs "jipc") then
+        match zparse a, list_parse bop_parse b with
+        | Some k, Some ops => Some (run_jipc k ops)
+        | _, _ => None
+        end
+      else None
+  | _ => None
+  end.
+
 Definition run (args : list bytes) : bytes :=
   match run_round8 args with
   | Some r => r
   | None => match run_metrics args with
             | Some r => r
-            | None => match run_journal args with Some r => r | None => ERR_BADCASE end
+            | None => match run_journal args with
+                      | Some r => r
+                      | None => match run_broker_journal args with Some r => r | None => ERR_BADCASE end
+                      end
             end
   end.
